@@ -13,9 +13,10 @@ import (
 // impl.unmarshalOptions). The instances are derived from the declarations by
 // name: for a bool field F of the public struct and a flag constant
 // <Prefix>F in runtime/protoiface
-//   (a) the public->flags function sets `|= <Prefix>F` under the true edge of o.F;
-//   (b) impl.<opts>.F() tests flags against exactly <Prefix>F;
-//   (c) impl.<opts>.Options() copies `F: o.F()` into the public struct.
+//
+//	(a) the public->flags function sets `|= <Prefix>F` under the true edge of o.F;
+//	(b) impl.<opts>.F() tests flags against exactly <Prefix>F;
+//	(c) impl.<opts>.Options() copies `F: o.F()` into the public struct.
 func (c *Ctx) ruleOptsBridge(rule, side string) {
 	R, P := c.R, c.P
 	R.Rule(rule, "for every bool option F with a protoiface flag constant: the public→flags function sets the flag under o.F, the internal accessor F() tests exactly that flag, and internal→public Options() copies F: o.F()", 4)
